@@ -31,18 +31,29 @@ CHECKS = {
              'states all of whose paths satisfy g, and a state is excluded iff an ultimately periodic path from it '
              'satisfies not g — for every WF structure and every LTL formula. Correspondence: exhaustive small scope + '
              'random, model vs LTL.modelcheck.',
-        note=TB + 'The atom set is the declarative textbook one; that _build_atoms enumerates it (plus harmless dead '
-             'atoms) is validated by the correspondence only.'),
+        note=TB + 'ltl_exact is proved for the declarative textbook atom set; C02Atoms.lean models _get_closure / '
+             '_build_atoms / _Tableu statement by statement (modelcheckBuilt) and proves modelcheckBuilt = modelcheck '
+             '(built_eq_declarative, ltl_exact_built) for formulas without double negations, which is all the entry '
+             'points produce (restrict_noNN); the built atoms, closure and tableau of the model are compared with the '
+             'implementation\'s internal objects on every run (validate_ltlatoms.py). A latent wrong answer of '
+             '_checkE_path_formula on double negations, unreachable through modelcheck, is kernel-checked '
+             '(double_negation_counterexample) and documented.'),
     'C03': dict(
         cat='proof', ref='5/C03',
-        technique='Lean 4 theorem ctls_exact_partial (replacement of quantified subformulas by fresh atoms, on top of '
-                  'the CTL and LTL exactness theorems) with a decidable run-time-checked naming hypothesis + '
-                  'differential correspondence',
-        text='Theorem PMC.C03.ctls_exact_partial: CTLS.modelcheck model exact for every WF structure and CTL* state '
-             'formula under the decidable hypothesis namesOK (generated atom names did not clash on the run), which '
-             'the driver evaluates on every correspondence case. Correspondence: corpus + random nested CTL* formulas.',
-        note=TB + 'namesOK is discharged per case at run time, not yet from "identifier-style atoms and labels" (needs '
-             'print injectivity inside the induction); the adversarial-label cases are left to C19\'s correspondence.'),
+        technique='Lean 4 theorem ctls_exact (replacement of quantified subformulas by fresh atoms on top of the CTL and '
+                  'LTL exactness theorems; the naming discipline is proved by an invariant along the run + print '
+                  'injectivity over identifier and generated bracket names) + differential correspondence model vs '
+                  'CTLS.modelcheck',
+        text='Theorem PMC.C03.ctls_exact: the model of CTLS.modelcheck returns exactly the satisfying states for every '
+             'WF structure and every CTL* state formula whose atoms and labels are identifier-style names and whose '
+             'and/or have >=2 operands (what the parser builds) - all sizes, any quantifier nesting. '
+             'ctls_exact_partial: the same for ANY names under the decidable hypothesis namesOK. Correspondence: '
+             'corpus x all structures <=2 states, sampled 3-state, random nested CTL* formulas (every case is counted '
+             'as inside the hypotheses of ctls_exact), plus a stream of operand-free/one-operand and/or where the '
+             'model must still follow the code.',
+        note=TB + 'The arity hypothesis is necessary: kernel-checked counterexample And(A X Or(), A X And()) '
+             '(C03Full.lean), reproduced on the real code = known finding KF-C03-a. Names that are not identifier-style '
+             '(adversarial labels) are covered by ctls_exact_partial + C19\'s correspondence.'),
     'C04': dict(
         cat='proof', ref='5/C04',
         technique='Lean 4 corollaries of the exactness theorems and of semantic laws (expansion laws, dualities, '
@@ -102,7 +113,8 @@ CHECKS = {
              'satisfies the unique-table invariant), no_duplicate_triple, id_eq_iff_tree_eq, tree_eq_iff_same_function, '
              'obdd_eq_iff_same_function, gc_preserves. Tie: random build/combine/drop/gc histories over pools of OBDDs '
              '(<=4 variables, all orderings): trees, ==/is, truth tables, duplicate-triple scan of BDDNode.nodes() and '
-             'live-node count after gc.collect() vs the model.',
+             'live-node count after gc.collect() vs the model. C16Api.lean: descendents()/ancestors()/BDDNode.nodes() '
+             'are exactly reachability in the unique table; tied by sessions of hand-built and library-built diagrams.',
         note=TB + 'CPython weak sets + reference counting are modelled as "a node disappears only when no live node or '
              'root points to it"; the store-level apply/restrict/invert with their per-call caches are modelled in '
              'BDDStoreOps.lean and proved to compute the tree-level results (applyS_spec, cache_transparent, '
@@ -113,9 +125,14 @@ CHECKS = {
                   'ordered trees + differential correspondence (trees, truth tables, error classes)',
         text='Theorems PMC.C17.*: &,|,^,~,restrict denote conjunction, disjunction, xor, negation, cofactor on every '
              'assignment; results ordered and reduced; variables() is exactly the set of variables the function depends '
-             'on. Tie: expression pairs over <=4 variables, all orderings, all (v,b); ordering-mismatch and '
-             'foreign-variable RuntimeErrors.',
-        note=TB + 'The ordering guards (RuntimeError) are decided before the tree level and are exercised by the correspondence.'),
+             'on. C17Api.lean (model of the API around the operations: ListOrdering, respect_ordering, BDDNode/OBDD '
+             'constructors, ==, restrict and apply guards): foreign_variable_error_classes, '
+             'obdd_apply_different_orderings, obdd_apply_error (any error of &,|,^ is RuntimeError and has exactly the two '
+             'stated causes), respect_ordering_*. Tie: expression pairs over <=4 variables, all orderings, all (v,b); API '
+             'sessions (orderings, hand-built diagrams incl. ill-ordered and foreign-variable ones, fresh interpreters).',
+        note=TB + 'API-model disagreements on details the property does not mention (error class of ill-typed calls, '
+             'printed text) are reported as a broken correspondence (no-failing-input-found); a guard that the model '
+             'proves to be RuntimeError and the library answers differently is a failing input.'),
     'C18': dict(
         cat='proof', ref='5/C18',
         technique='Lean 4 theorems build_spec, build_ok_iff, build_congr, printExp_denote, print_roundtrip + '
@@ -211,8 +228,8 @@ CHECKS.update({
              'Independently the implementation\'s outcome is checked against the property itself (only the two '
              'ParserError classes, 0<=pos<=len, result in the logic and of the logic\'s module).',
         note=TB + 'Lark\'s table construction is in the trusted base (the tables are extracted, and the real driver is '
-             'validated against the model); that the internal errors (inconsistent table, fuel) never occur with the '
-             'generated tables is checked by the correspondence, not proved; the Lexes relation over-approximates the '
+             'validated against the model); that the internal errors (inconsistent table, fuel) never occur is proved in '
+             'C10Total.lean from the generated decidable obligations table_ok_* (re-checked on every run); the Lexes relation over-approximates the '
              'contextual lexer.'),
     'C19': dict(
         cat='proof', ref='5/C19',
